@@ -25,7 +25,7 @@ the condition list.  A rule that needs "always reaches" must use hv.flow.
 import ast
 import copy
 
-from .model import inline_temporaries, unparse
+from .model import inline_temporaries, unparse, reorder_operands
 
 _NEG = {ast.Is: ast.IsNot, ast.IsNot: ast.Is, ast.Eq: ast.NotEq, ast.NotEq: ast.Eq, ast.In: ast.NotIn, ast.NotIn: ast.In}
 
@@ -177,7 +177,10 @@ def effects(fnode, inline=True, keep=(), consts=False, calls=False, methods=None
             e = inline_temporaries(fnode, e, keep=tuple(keep) + tuple(env), inline_consts=consts, inline_calls=calls)
             if env:
                 e = _Subst(env).visit(e)
-        return ast.fix_missing_locations(_Fold().visit(e))
+        e = ast.fix_missing_locations(_Fold().visit(e))
+        # substitution and inlining can put a literal where the canonical operand order wants a
+        # name (or the reverse): restore the one spelling the rules' patterns are written in
+        return ast.fix_missing_locations(reorder_operands(e, fnode))
 
     class C(list):
         """condition list that remembers the If node of each condition"""
